@@ -359,7 +359,7 @@ pub fn do_forge(w: &mut World, s: usize, g: usize, template: u64, q: usize) -> V
     let victim = others.get(q % others.len().max(1)).copied();
     let mut r = crate::prng::Prng::new(crate::prng::mix(&[w.seed, w.step_no as u64, 0xf0f]));
     // proposals by value
-    let (props, name, rule_expected): (Vec<Vec<u8>>, &str, bool) = match template % 9 {
+    let (props, name, rule_expected): (Vec<Vec<u8>>, &str, bool) = match template % 10 {
         0 => {
             // sanity: one valid Add - must pass every rule and fail only at the (random) confirmation tag
             let banned = w.cfg.knob("banned").map(|_| w.parties.len() - 1);
@@ -391,6 +391,11 @@ pub fn do_forge(w: &mut World, s: usize, g: usize, template: u64, q: usize) -> V
         6 => {
             let beyond = rec.roster.iter().map(|(i, _, _)| *i).max().unwrap_or(0) + 7;
             (vec![enc_remove(beyond)], "remove-non-member", true)
+        }
+        9 => {
+            // a ReInit on its own is a valid proposal set: the commit must get as far as the (random) confirmation
+            // tag, and being rejected there it must leave nothing behind (pending re-initialisation)
+            (vec![enc_reinit(b"forged-reinit", w.cfg.suite)], "valid-reinit-alone", false)
         }
         8 => {
             // a resumption PSK of the current epoch number - of a group nobody here belongs to
